@@ -35,7 +35,7 @@ RULE = ('runs generated from the seed, one history per run: a database world (3-
         'in-place modification of returned signature arrays), session abuse on the default session obtained four ways (modify/add/delete, flush, autoflushing query, commit, sessionmaker.begin block), '
         'failing commands (missing input, bad options, foreign signature file, corrupt gzip, unwritable output), a command interrupted by KeyboardInterrupt at line event k, a command SIGKILLed at line event k. '
         'After every operation: sha-256 of the .gdb and .gs files, SQL statements that reached the database, whether commit() raised. '
-        'A case is the sequence of operation kinds; non-trivial = length>=2 and contains a session-abuse, failing, interrupted or killed step. Further drawn dimensions: a quarter of the databases in WAL journal mode, rollback/close and direct DML in the middle of session abuse, a writable session maker used for reading, commands naming the database signature file directly.')
+        'A case is the sequence of operation kinds; non-trivial = length>=2 and contains a session-abuse, failing, interrupted or killed step. Further drawn dimensions: a quarter of the databases in WAL journal mode, rollback/close and direct DML in the middle of session abuse, a writable or plain-class session maker requested in four forms (absolute or relative path) and used for reading, commit() on the untouched session and straight after direct DML, commands naming the database signature file directly.')
 STATES_MEASURE = 'distinct history prefixes (sequences of operation kinds)'
 
 REAL = ['all gambit commands and library entry points used as operations', 'SQLAlchemy + SQLite + h5py/libhdf5 on real files in scratch space', 'ReadOnlySession / file_sessionmaker / CLIContext']
@@ -260,6 +260,15 @@ def _session_abuse(ctx, ch, L, world, mon, history):
 			if g is not None:
 				g.description = 'edited'
 	try:
+		if ch.int(0, 3, L + '.commit_clean') == 0:
+			# the refusal does not depend on there being anything pending
+			try:
+				s.commit()
+			except Exception:
+				ctx.probe('commit_refused_clean_session')
+			else:
+				mon.after(desc + ' commit() on the untouched session', history)
+				ctx.violation('C18.commit-accepted', f'{desc}: commit() on the untouched default session did not raise', detail=f'session class {type(s).__name__}')
 		modify()
 		steps = ['flush', 'autoflush_query', 'commit', 'begin_block', 'rollback_then_modify', 'close_then_modify', 'direct_dml']
 		n = ch.int(1, 6, L + '.nsteps')
@@ -299,6 +308,15 @@ def _session_abuse(ctx, ch, L, world, mon, history):
 						s.execute(text("UPDATE genomes SET description = 'raw edit' WHERE id = 1"))
 				except Exception:
 					pass
+				if ch.int(0, 2, f'{L}.dmlc{j}') == 0:
+					# statements already inside the transaction and nothing pending in the unit of work: commit must still refuse
+					try:
+						s.commit()
+					except Exception:
+						ctx.probe('commit_refused_after_direct_dml')
+					else:
+						mon.after(desc + ' commit() after direct DML', history)
+						ctx.violation('C18.commit-accepted', f'{desc}: commit() after direct DML through the default session did not raise', detail=f'session class {type(s).__name__}')
 				try:
 					s.rollback()
 				except Exception:
@@ -373,7 +391,13 @@ def _library_op(ctx, ch, L, world, pool, archive_files):
 			# sessions the library hands out by default afterwards must be as read-only as before
 			from gambit.db import Genome
 			from gambit.db.sqla import file_sessionmaker
-			ws = file_sessionmaker(world.gdb, readonly=False)()
+			from sqlalchemy.orm import Session as PlainSession
+			how = ch.pick(['readonly=False', 'cls=Session', 'cls=Session, readonly=False', 'readonly=False, autoflush=False'], L + '.wsm')
+			kw = dict({'readonly=False': dict(readonly=False), 'cls=Session': dict(cls=PlainSession),
+			           'cls=Session, readonly=False': dict(cls=PlainSession, readonly=False),
+			           'readonly=False, autoflush=False': dict(readonly=False, autoflush=False)}[how])
+			path = world.gdb if ch.flip(0.5, L + '.wsm_abs') else os.path.relpath(world.gdb)
+			ws = file_sessionmaker(path, **kw)()
 			ws.query(Genome).count()
 			ws.close()
 			ws.get_bind().dispose()
